@@ -62,6 +62,27 @@ def _OtherPacket():
     return _OTHER()
 
 
+def assign_in_place(cur, new):
+    """make packet `cur` hold the values of `new` WITHOUT replacing the mutable objects it already holds (nested packets and
+    lists are changed in place, recursively): what a user does with p.a.b.x = 1 or p.a.items.append(..)"""
+    from bind import observe
+    for nm, _f, _p, _u in type(new).get_fields():
+        try:
+            nv = getattr(new, nm)
+        except AttributeError:
+            continue
+        ov = getattr(cur, nm, None)
+        if isinstance(ov, observe.Packet) and isinstance(nv, observe.Packet) and type(ov) is type(nv):
+            assign_in_place(ov, nv)
+        elif isinstance(ov, list) and isinstance(nv, list):
+            ov[:] = nv
+        else:
+            try:
+                setattr(cur, nm, nv)
+            except AttributeError:
+                pass
+
+
 def observe_case(mod, d, c, how="ctor"):
     """-> observation record (JSON-able) of constructing/packing/re-parsing on the real classes"""
     from bind import observe
@@ -119,11 +140,7 @@ def observe_case(mod, d, c, how="ctor"):
                     cur[:] = newv                       # change the default-constructed list IN PLACE
                 elif c["mod"]["n"] not in named and isinstance(cur, observe.Packet) and isinstance(newv, observe.Packet) \
                         and type(cur) is type(newv):
-                    for nm2, _f, _p, _u in type(newv).get_fields():
-                        try:
-                            setattr(cur, nm2, getattr(newv, nm2))   # ... or the nested default packet in place
-                        except AttributeError:
-                            pass
+                    assign_in_place(cur, newv)                      # ... or the nested default packet in place, at every depth
                 else:
                     setattr(q, c["mod"]["n"], newv)
             e["cv2"] = observe.abs_packet(q, visible=True)["vals"]
@@ -273,7 +290,9 @@ def _wrun(chunk):
             for how in ("ctor", "setattr"):
                 n += 1
                 try:
-                    mod = _W["scratch"].load(d["prog"], gen)
+                    local = bool(gen and gen.get("local_classes"))
+                    g2 = {k: x for k, x in gen.items() if k != "local_classes"} if gen else gen
+                    mod = _W["scratch"].load(d["prog"], g2 or None, local=local)
                     obs = observe_case(mod, d, c, how)
                     obs["generic_p"] = gen is not None and not gen.get("generate_for_pack", True)
                     obs["vec"] = True if gen is None else bool(gen.get("vectorize", True))
